@@ -22,7 +22,9 @@ sys.path.insert(1, ROOT)
 
 from . import suitejudge as J  # noqa: E402
 
-TESTS = os.path.realpath(os.path.join(ROOT, "tests")) + os.sep
+# calls are judged when they are made directly by a file under this directory of the mirror (the repository's tests by
+# default; harness/apptrace.py records the repository's applications the same way)
+TESTS = os.path.realpath(os.path.join(ROOT, os.environ.get("SUITE_CALLER_DIR", "tests"))) + os.sep
 STATE = {"depth": 0, "n": 0, "skipped": 0, "errors": 0}
 _fh = open(OUT, "a")
 
@@ -103,6 +105,11 @@ def _install():
 
 
 _install()
+
+
+def finish():
+    _fh.write(json.dumps({"prop": "END", "fn": "", "cls": "", "detail": dict(STATE), "events": []}) + "\n")
+    _fh.flush()
 
 
 def pytest_sessionfinish(session, exitstatus):
